@@ -10,13 +10,13 @@ from . import base
 TRUSTED_BASE = base.TRUSTED_BASE + ['copy.deepcopy copies deeply and np.array(list) copies (the model allocates fresh cells for them)']
 ASSUMPTIONS = base.ASSUMPTIONS + ['routes are exactly those listed in the statement; copy() (documented shallow), .T and flatten()/ravel() are not among them',
                                   'indexing views are exercised on 2-D objects (x[i] is a row view; 1-D integer indexing returns a copy of the element)']
-RULE = ('HEAP lines: random histories (<=14 steps) that create objects, derive new ones by like=, deepcopy, like(), conversion, +, np.add, ~, >> (trunc/keep), indexing, and then mutate one (whole write, indexed write, config change, flag-raising write, reset); '
+RULE = ('HEAP lines: random histories (<=14 steps) that create objects, derive new ones by like=, deepcopy, like(), conversion, +, np.add, ~, >> (trunc/keep), row indexing, strided / reversed slicing, column indexing (also of views), and then mutate one (whole write, indexed write, config change, flag-raising write, reset); '
         'after every step the observable state (format, codes, config, flags) of ALL live objects and the real sharing graph (config/status identity, np.shares_memory) are compared with the model. '
         'INP lines: lists / nested lists / tuples / arrays of numbers and of bin/hex strings are deep-compared before and after construction. BCF lines: every Config field x invalid values through the setter, Fxp kwargs and Config(). '
         'non-trivial = a history with at least one derivation followed by a mutation')
 TECHNIQUE = 'Lean 4 theorems on a heap model (fresh allocation on every route except index views, no-sharing invariant by induction over histories, frame property of mutations, write-through of views) + differential correspondence of object states and sharing graphs'
-LEVEL_TEXT = ('Machine-checked on the heap model: every derivation route allocates config, status and buffer cells that no live object refers to (index views share only the buffer), the pairwise-disjointness invariant is preserved by every operation along any history, '
-              'a mutation of one object leaves the observable state of every object it shares no cell with unchanged, and an indexed write through a view changes exactly the viewed elements of its base. '
+LEVEL_TEXT = ('Machine-checked on the heap model: every derivation route allocates config, status and buffer cells that no live object refers to (views - rows, strided and reversed slices, columns - share only the buffer), the pairwise-disjointness invariant is preserved by every operation along any history, no creating step changes the codes, flags or configuration of an existing object, '
+              'a mutation of one object leaves the observable state of every object it shares no cell with unchanged, and an indexed write through a view lands on the base element at the view's position (off + k*stride), which the base reads back. '
               'The implementation\'s object states and its real sharing graph are compared with the model after every step of random derive-then-mutate histories.')
 LEVEL_NOTE = 'Trusted: Lean kernel + standard axioms; allocation behaviour of the routes is modelled from the code and tied to it by the sharing-graph correspondence; "inputs unchanged" and "invalid config rejected" are observed on the implementation.'
 
